@@ -36,6 +36,46 @@ def run(fx, rep, tier):
     rule_label(fx, rep)
     rule_attackers(fx, rep)
     rule_pins(fx, rep)
+    rule_pinray(fx, rep)
+
+
+def rule_pinray(fx, rep):
+    """A pawn pinned on a diagonal may still capture along that diagonal (en passant included). So no pawn capture may be
+    generated under the plain condition "the pawn is not diagonally pinned": the diagonal pin mask may restrict the targets
+    (`attacks &= diagonal_pins`) or appear in a disjunction with "the target lies on the pin ray", but a dominating
+    `!diagonal_pins.contains(pawn)` (or a `& !diagonal_pins` factor of the source set) drops legal captures that no perft
+    root of the suite contains."""
+    ok = True
+    n = 0
+    sites = [(sb, bb, t, ctor, src) for (sb, bb, t, ctor, b, src, dst) in ctor_sites(fx) if sb is b and ctor in ("capture", "capture_promotion")]
+    for (b, bb, t) in fx.callers_of(lambda nm: nm.endswith("Move::en_passant")):
+        if norm(b.name).startswith("chess::movegen::gen::") and "::tests::" not in b.name:
+            sites.append((b, bb, t, "en_passant", b.expr(t["args"][0], expand_named=True, at=bb)))
+    for (f, bb, t, ctor, src) in sites:
+        roles = param_roles(fx, f)
+        diag = [k for k, v in roles.items() if v == "diagonal_pins"]
+        if not diag or not any(is_pawn_set(fx, f, x) for x in and_factors(iter_source(src) or ("none",))):
+            continue
+        n += 1
+        dl = diag[0]
+        why = None
+        # a factor `!diagonal_pins` of the source set
+        for fac in and_factors(iter_source(src) or ("none",)):
+            d = deep_strip(fac)
+            if isinstance(d, tuple) and d and d[0] == "call" and d[1].endswith("Not>::not") and deep_strip(d[2][0])[:2] == ("arg", dl):
+                why = "its source pawns exclude every diagonally pinned pawn"
+        # a dominating `contains(diagonal_pins, pawn)` == false
+        for (e, pol, w) in guard_conditions(f, bb, expand_named=True):
+            d = deep_strip(e)
+            if pol is False and isinstance(d, tuple) and d and d[0] == "call" and d[1].endswith("Bitboard::contains") and deep_strip(d[2][0])[:2] == ("arg", dl):
+                why = "it is generated only if the pawn is not diagonally pinned"
+        good = why is None
+        rep.obligation(good)
+        if not good:
+            ok = False
+            rep.violation("C01-PINRAY", f"C01-PINRAY/{norm(f.name).split('::')[-1]}/{ctor}", f"`{f.name}` line {t.get('line')} builds Move::{ctor} for a pawn, but {why}: a pawn pinned on a diagonal can still capture along that diagonal, so a legal move is missing",
+                          {"fn": f.name, "file": f.file, "line": t.get("line")})
+    rep.rule("C01-PINRAY", n, 3, ok, "diagonally pinned pawns keep their captures along the pin ray")
 
 
 # ---- C01-PINS ------------------------------------------------------------------------------
@@ -1104,6 +1144,8 @@ def enum_name_of(e):
 GEN = "src/chess/movegen/gen.rs"
 MV = "src/chess/moves.rs"
 MUTANTS = [
+    {"name": "en passant refused for every diagonally pinned pawn (seed C17-4a)", "expect": "C01-PINRAY/generate_pawn_captures/en_passant",
+     "edits": [(GEN, "                if !diagonal_pins.contains(potential_en_passant_capture_start)\n                    || diagonal_pins.contains(en_passant_target)\n                {", "                if !diagonal_pins.contains(potential_en_passant_capture_start) {")]},
     {"name": "queen promotion push ignores diagonal pins (seed C01-4a)", "expect": "C01-PINS/generate_pawn_captures/quiet_promotion",
      "edits": [(GEN, "    for pawn in can_push_once_pawns & will_promote_rank {\n        let target = pawn.forward(game.player);\n\n        // Pawns cannot push forward if they are pinned orthogonally\n        // There's no 'moving along the pin ray' for these pieces, since the target square is empty\n        if !orthogonal_pins.contains(pawn) {\n            moves.push(Move::quiet_promotion(\n                pawn,\n                target,\n                PromotionPieceKind::Queen,",
                 "    for pawn in can_capture_pawns & single_push_available_move_pawns & will_promote_rank {\n        let target = pawn.forward(game.player);\n\n        // Pawns cannot push forward if they are pinned orthogonally\n        // There's no 'moving along the pin ray' for these pieces, since the target square is empty\n        if !orthogonal_pins.contains(pawn) {\n            moves.push(Move::quiet_promotion(\n                pawn,\n                target,\n                PromotionPieceKind::Queen,")]},
